@@ -19,23 +19,23 @@ TECHNIQUE = ('runtime post-condition monitors with scalar reference oracles (cla
              'identity / one-sided-limit / bisection-scan relations for the NZS 1170.5 functions')
 RULE = ('cases = calls of the real functions through the public names. Interpolation: strictly increasing node sets '
         '(sorted random, integer grids, log-spaced, very uneven, offset with spacing << magnitude, 1..8 nodes, 1..4 columns, overall scale 10^U(-12,6), '
-        'float and int dtype) with queries inside / on nodes / next to nodes / below / above; distinct = digest(queries, '
+        'float and int32/int64 dtype for nodes, queries and tables) with queries inside / on nodes / a hair (1 ulp, 1e-15..1e-9) next to nodes / below / above; distinct = digest(queries, '
         'nodes, table), non-trivial = some query strictly inside a non-constant table. Rolling average: record classes '
         'of gen.record, 1..40 (some up to 400) samples in five containers, every window 1..len drawn at random, the four '
         'mode strings; non-trivial = non-constant series and window > 1. Step fit: 2..30 (some up to 120) samples, '
-        'positive / negative / mixed-sign / step-like data, float64 and integer dtype, lists, p in {1,2}, dir=None; '
+        'positive / negative / mixed-sign / step-like data, float64 / float32 / integer dtype, lists, tuples, p in {1,2}, dir=None; '
         'non-trivial = non-constant series. Design spectra: T in {0, every boundary*(1 -+ 1e-12), U(0,6), 10^U(-6,3)} as '
-        'float / np.float64 / array / list, classes C D E, Z R N uniform in their code ranges; a fixed grid of [0, 6.5] '
+        'float / np.float64 / float and integer arrays (int32, int64, arange) / lists and tuples of floats, ints or both, classes C D E, Z R N uniform in their code ranges; a fixed grid of [0, 6.5] '
         '(distinct by construction) is scanned for jumps with bisection down to 1e-12.')
 ASSUMPTIONS = ['node sets strictly increasing and finite (duplicates / unsorted nodes are counted, not judged)',
                'interp2d arguments are numpy arrays with a 2-d table (its documented signature)',
                'interp_left queries below the first node are rejected by the function (outside the domain)',
                'centred window of even size: the statement does not fix the side of the extra sample, either is accepted '
                '(odd sizes decide the centring)',
-               'step-fit: float64 or integer dtype, p in {1,2}, dir=None; integer-dtype truncation is the open finding '
+               'step-fit: float64, float32 (judged to 64 eps32: the result is float32) or integer dtype, p in {1,2}, dir=None; integer-dtype truncation is the open finding '
                'C20/int-dtype-truncation and is attributed to it only when result == trunc(expected) element-wise',
                'step levels are judged for 1 <= ind <= n-2 (both sides non-empty)',
-               'periods are Python/numpy floats (c_h_factor also arrays and lists of floats); g = 9.81 m/s2 and corner '
+               'periods are Python/numpy floats; c_h_factor also takes containers (arrays, lists, tuples) of float or integer-typed periods, a bare int scalar is outside its signature; g = 9.81 m/s2 and corner '
                'period 3 s in the corner-displacement relation d_c = S_d(3 s) * g / (2 pi)^2',
                '"continuous to table precision" = one-sided jump <= 0.5 % (three significant digits in the tables)',
                'oracle vf/oracles/helpers.py is correct (scalar code from the definitions)']
@@ -46,7 +46,7 @@ _MIN_QUICK = {'interp2d.inside==columnwise-linear': 3000, 'interp2d.on-node==tab
               'rollav.centre==window-mean': 8000, 'rollav.length-kept': 16000, 'rollav.constant-preserved': 2000,
               'stepfit.error(p=1)==sum|dev|': 2500, 'stepfit.error(p=2)==sum|dev|^2': 2000,
               'stepfit.no-split-entry==whole-series-error': 5000, 'stepfit.levels==side-means': 9000,
-              'sd_nzs==c_h*T^2*Z*N*R': 30000, 'c_h_factor*T^2==sd_nzs(unit)': 25000, 'c_h.array==scalar': 600,
+              'sd_nzs==c_h*T^2*Z*N*R': 30000, 'c_h_factor*T^2==sd_nzs(unit)': 25000, 'c_h.array==scalar': 1100,
               'c_h.continuous(boundaries)': 200, 'sd_nzs.continuous(boundaries)': 200, 'c_h.continuous(scan)': 10000,
               'sd_nzs.continuous(scan)': 10000, 't_eff==T_c*d/d_c': 2600, 't_eff(d_c*T/3)==T': 2400,
               't_eff.rejects-above-corner': 600}
@@ -82,6 +82,15 @@ def _mark(e):
 
 def _cont(v):
     return type(v).__name__
+
+
+EPS32 = float(np.finfo(np.float32).eps)
+
+
+def _rtol_for(arr, k):
+    """1e-9 for float64 / integer data. float32 data may legitimately be processed and returned in float32, where
+    correct code cannot be closer than a few float32 roundings: k * eps32."""
+    return k * EPS32 if arr.dtype == np.float32 else RTOL
 
 
 def _floats(a):
@@ -233,11 +242,12 @@ def check_rollav(ctx, values, steps, mode, result):
     # rounding of the stated algorithm (differences of a running sum) is relative to the largest partial sum
     scale = (math.fsum(abs(v) for v in x) + (st - 1) * max(abs(x[0]), abs(x[-1]))) / st
     ref = np.array(O.rolling_mean(x, st, mkey))
-    okk, idx, err, allowed = tol.worst(got, ref, scale=scale, rtol=RTOL)
+    rt = _rtol_for(arr, 64)
+    okk, idx, err, allowed = tol.worst(got, ref, scale=scale, rtol=rt)
     which = 'extra sample before'
     if not okk and mkey == 'centre' and st % 2 == 0:
         ref2 = np.array(O.rolling_mean(x, st, mkey, alt=True))
-        ok2 = tol.worst(got, ref2, scale=scale, rtol=RTOL)[0]
+        ok2 = tol.worst(got, ref2, scale=scale, rtol=rt)[0]
         if ok2:
             okk, which = True, 'extra sample after'
     if mkey == 'centre' and st % 2 == 0 and okk:
@@ -247,7 +257,7 @@ def check_rollav(ctx, values, steps, mode, result):
               '%.3g)' % (x[:8], st, mode, idx, got[idx] if idx is not None else None,
                          ref[idx] if idx is not None else None, err, allowed))
     if all(v == x[0] for v in x):
-        ctx.check(bool(np.all(np.abs(got - x[0]) <= RTOL * abs(x[0]) * (n + st) / st)), 'rollav.constant-preserved', wit,
+        ctx.check(bool(np.all(np.abs(got - x[0]) <= rt * abs(x[0]) * (n + st) / st)), 'rollav.constant-preserved', wit,
                   'constant series %r not preserved: %s' % (x[0], got[:8]))
 
 
@@ -264,7 +274,7 @@ def _step_domain(values):
         arr = np.asarray(values)
     except Exception:
         return None
-    if arr.ndim != 1 or arr.size < 2 or not (arr.dtype == np.float64 or arr.dtype.kind in 'iu'):
+    if arr.ndim != 1 or arr.size < 2 or not (arr.dtype in (np.float64, np.float32) or arr.dtype.kind in 'iu'):
         return None
     if arr.dtype.kind == 'f' and not np.all(np.isfinite(arr)):
         return None
@@ -296,7 +306,7 @@ def check_step_error(ctx, values, p, direction, result):
     int_in = arr.dtype.kind in 'iu'
     for clause, sl in ((c_split, slice(0, n - 1)), (c_last, slice(n - 1, n))):
         g, e = gl[sl], exp[sl]
-        okk, idx, err, allowed = tol.worst(np.array(g, dtype=float), np.array(e), scale=scale, rtol=RTOL)
+        okk, idx, err, allowed = tol.worst(np.array(g, dtype=float), np.array(e), scale=scale, rtol=_rtol_for(arr, 64))
         fin = None
         if not okk and int_in and got.dtype.kind in 'iu' and O.trunc_explains(g, e):
             fin = K5      # mechanism: float result stored into an array that inherited the integer dtype of the input
@@ -330,7 +340,7 @@ def check_levels(ctx, values, ind, result, ind_given=True):
     except Exception:
         got, shape_ok = np.zeros(2), False
     m = max(abs(v) for v in x)
-    okk = shape_ok and tol.close(got, np.array(ref), scale=m, rtol=RTOL)
+    okk = shape_ok and tol.close(got, np.array(ref), scale=m, rtol=_rtol_for(arr, 32))
     ctx.check(okk, 'stepfit.levels==side-means', wit,
               'calc_step_fn_steps_vals(%s%s, ind=%d) = %r, means before/after the split sample = %r'
               % (x[:10], '...' if n > 10 else '', i, result, ref))
@@ -371,6 +381,11 @@ def _is_float(v):
     return isinstance(v, float) and not isinstance(v, bool)
 
 
+def _is_real(v):
+    """Python / numpy real number (int or float), not bool."""
+    return isinstance(v, (int, float, np.integer, np.floating)) and not isinstance(v, (bool, np.bool_))
+
+
 def check_c_h(ctx, period, site_class, result):
     if site_class not in SITE_CLASSES:
         ctx.observe('c_h_factor: unknown site class (not judged)')
@@ -381,9 +396,13 @@ def check_c_h(ctx, period, site_class, result):
     except Exception:
         ctx.observe('c_h_factor: period neither float nor sequence (not judged)')
         return
-    if not ts or not all(_is_float(t) and math.isfinite(t) and t >= 0 for t in ts):
-        ctx.observe('c_h_factor: periods outside T >= 0 as floats (not judged)')
+    # a container may hold integer-valued periods (list of ints, np.arange, int32 array ...): T = 1, 2, 3 s are periods
+    # like any other; only a bare int scalar is outside the signature (len() of an int)
+    if not ts or not all(_is_real(t) and math.isfinite(t) and t >= 0 for t in ts):
+        ctx.observe('c_h_factor: periods outside T >= 0 as real numbers (not judged)')
         return
+    if not single and any(not _is_float(t) for t in ts):
+        ctx.observe('c_h_factor: container with integer-typed periods (judged)')
     wit = lambda: {'fn': 'c_h_factor', 'period': period, 'period_container': _cont(period), 'site_class': site_class,
                    'got': np.asarray(result)}
     r = np.asarray(result)
@@ -406,9 +425,11 @@ def check_c_h(ctx, period, site_class, result):
         okk = math.isfinite(ch) and tol.close(mine, sd, scale=max(abs(sd), abs(mine)) if math.isfinite(mine) else 1.0,
                                                rtol=RTOL)
         ctx.check(okk, 'c_h_factor*T^2==sd_nzs(unit)',
-                  lambda: {'fn': 'c_h_factor', 'period': t, 'period_container': 'float', 'site_class': site_class,
-                           'got': ch, 'sd_nzs_unit': sd},
-                  'class %s T=%r: c_h_factor=%r -> C_h*T^2 = %r but sd_nzs(T, Z=N=R=1) = %r' % (site_class, t, ch, mine, sd))
+                  lambda: {'fn': 'c_h_factor', 'period': period, 'period_container': _cont(period),
+                           'site_class': site_class, 'got': np.asarray(result), 'element': t, 'c_h': ch, 'sd_nzs_unit': sd},
+                  'class %s T=%r (argument: %s%s): c_h_factor=%r -> C_h*T^2 = %r but sd_nzs(T, Z=N=R=1) = %r'
+                  % (site_class, t, _cont(period), '' if single else ' of %d, dtype %s' % (len(ts), np.asarray(period).dtype),
+                     ch, mine, sd))
 
 
 def check_sd(ctx, period, site_class, z, r, n, result):
@@ -594,23 +615,25 @@ def rel_continuity(ctx, eqsig, which, sc, a, b, clause):
                  100 * abs(j[3] - j[2]) / max(abs(j[2]), abs(j[3]), 1e-300)) if j is not None else '')
 
 
-def rel_array_scalar(ctx, eqsig, periods, sc, as_list):
+def rel_array_scalar(ctx, eqsig, arg, sc):
+    """c_h_factor(container)[i] == c_h_factor(float(container[i])) for any container of real periods."""
     ds = eqsig.design_spectra
-    arg = [float(t) for t in periods] if as_list else np.array(periods, dtype=float)
-    wit = {'fn': 'c_h_array_scalar', 'periods': np.array(periods, dtype=float), 'site_class': sc, 'as_list': bool(as_list)}
+    periods = [float(t) for t in arg]
+    wit = {'fn': 'c_h_array_scalar', 'periods': arg, 'container': _cont(arg), 'site_class': sc}
     okc, arr = _call(ctx, 'c_h.array==scalar', wit, ds.c_h_factor, arg, sc)
     if not okc:
         return
     sc_vals = []
     for t in periods:
-        okc, v = _call(ctx, 'c_h.array==scalar', wit, ds.c_h_factor, float(t), sc)
+        okc, v = _call(ctx, 'c_h.array==scalar', wit, ds.c_h_factor, t, sc)
         if not okc:
             return
         sc_vals.append(float(v))
     arr = np.asarray(arr, dtype=float)
     ctx.check(arr.shape == (len(periods),) and tol.close(arr, np.array(sc_vals), rtol=RTOL), 'c_h.array==scalar',
               dict(wit, got_array=arr, got_scalar=np.array(sc_vals)),
-              'c_h_factor(array) = %s but element-wise scalar calls give %s' % (arr[:8], sc_vals[:8]))
+              'c_h_factor(%s %s, %r) = %s but element-wise c_h_factor(float(T)) gives %s'
+              % (_cont(arg), list(arg)[:8], sc, arr[:8], sc_vals[:8]))
 
 
 def rel_t_eff_roundtrip(ctx, eqsig, T, sc, z, r, n):
@@ -660,7 +683,7 @@ def gen_nodes(rng):
             base = np.sort(rng.uniform(-5, 5, size=m))
             name = 'sorted-random'
         elif k == 1:
-            base = np.arange(m, dtype=float) * float(rng.integers(1, 4)) + float(rng.integers(-3, 4))
+            base = np.arange(m, dtype=float) * float(rng.integers(1, 5)) + float(rng.integers(-3, 4))
             name = 'integer-grid'
         elif k == 2:
             base = np.sort(10.0 ** rng.uniform(-2, 1.5, size=m))
@@ -681,8 +704,9 @@ def gen_nodes(rng):
             s = 1.0
         nodes = base * s
         if name == 'integer-grid' and s == 1.0 and rng.random() < 0.5:
-            nodes = nodes.astype(np.int64)
-            name = 'integer-grid-int64'
+            idt = [np.int64, np.int32][int(rng.integers(2))]
+            nodes = nodes.astype(idt)
+            name = 'integer-grid-' + np.dtype(idt).name
         if np.all(np.isfinite(nodes)) and (m == 1 or np.all(np.diff(nodes) > 0)):
             return nodes, name
     return np.array([0.0, 1.0, 2.0]), 'integer-grid'
@@ -703,13 +727,18 @@ def gen_queries(rng, nodes, nq=None, below=True):
             q.append(float(rng.uniform(nf[j], nf[j + 1])))
         elif r < 0.54:
             q.append(float(nf[int(rng.integers(0, m))]))
-        elif r < 0.62:
+        elif r < 0.60:
             j = int(rng.integers(0, m))
             q.append(float(np.nextafter(nf[j], np.inf if rng.random() < 0.5 else -np.inf)))
-        elif r < 0.68 and m > 1:
+        elif r < 0.66:
+            # a hair (1e-9 .. 1e-15, relative or absolute) below / above a node
+            j = int(rng.integers(0, m))
+            h = float(10.0 ** rng.uniform(-15, -9)) * float(rng.choice([-1.0, 1.0]))
+            q.append(float(nf[j] * (1.0 + h)) if rng.random() < 0.5 else float(nf[j] + h))
+        elif r < 0.71 and m > 1:
             j = int(rng.integers(0, m - 1))
             q.append(float(0.5 * (nf[j] + nf[j + 1])))
-        elif r < 0.84:
+        elif r < 0.85:
             q.append(float(nf[0] - span * (10.0 ** rng.uniform(-3, 1))))
         else:
             q.append(float(nf[-1] + span * (10.0 ** rng.uniform(-3, 1))))
@@ -735,17 +764,40 @@ def gen_table(rng, m):
     if k != 1 and rng.random() < 0.5:
         f = f * 10.0 ** rng.uniform(-3, 3, size=(1, ncol))
     if k == 1 and rng.random() < 0.5:
-        f = f.astype(np.int64)
+        f = f.astype([np.int64, np.int32][int(rng.integers(2))])
     return f
+
+
+def gen_int_nodes(rng):
+    """Integer-dtype node set with uneven integer spacing 1..4 (so that integer queries fall on and between nodes)."""
+    m = int(rng.integers(1, 9))
+    idt = [np.int64, np.int32][int(rng.integers(2))]
+    nodes = (np.cumsum(rng.integers(1, 5, size=m)) + int(rng.integers(-6, 4))).astype(idt)
+    return nodes, 'all-integer-' + np.dtype(idt).name
+
+
+def gen_int_queries(rng, nodes, below=True):
+    lo = int(nodes[0]) - (3 if below else 0)
+    q = rng.integers(lo, int(nodes[-1]) + 4, size=int(rng.integers(1, 9)))
+    return q.astype([np.int64, np.int32][int(rng.integers(2))])
 
 
 def drive_interp(ctx, eqsig, rng, n_cases):
     for c in range(n_cases):
-        nodes, ncls = gen_nodes(rng)
+        all_int = rng.random() < 0.15
+        if all_int:
+            nodes, ncls = gen_int_nodes(rng)
+        else:
+            nodes, ncls = gen_nodes(rng)
         m = len(nodes)
         f = gen_table(rng, m)
-        q = gen_queries(rng, nodes)
-        if nodes.dtype.kind == 'i' and rng.random() < 0.5:
+        if all_int:
+            q = gen_int_queries(rng, nodes)
+            if rng.random() < 0.6:
+                f = rng.integers(-9, 10, size=f.shape).astype([np.int64, np.int32][int(rng.integers(2))])
+        else:
+            q = gen_queries(rng, nodes)
+        if not all_int and nodes.dtype.kind == 'i' and rng.random() < 0.5:
             q = np.round(q).astype(np.int64)
         nf = nodes.astype(float)
         inside = bool(np.any((q > nf[0]) & (q < nf[-1]) & ~np.isin(q, nf)))
@@ -755,9 +807,10 @@ def drive_interp(ctx, eqsig, rng, n_cases):
         _call(ctx, 'interp2d.inside==columnwise-linear', lambda: {'fn': 'interp2d', 'x': q, 'xf': nodes, 'f': f},
               eqsig.interp2d, q, nodes, f)
         # left interpolation on the same node set (queries at or above the first node)
-        ql = gen_queries(rng, nodes, below=False)
-        yk = int(rng.integers(0, 4))
-        y = [rng.normal(size=m), rng.integers(-9, 10, size=m), rng.normal(size=m).tolist(), None][yk]
+        ql = gen_int_queries(rng, nodes, below=False) if all_int else gen_queries(rng, nodes, below=False)
+        yk = int(rng.integers(0, 5))
+        y = [rng.normal(size=m), rng.integers(-9, 10, size=m), rng.normal(size=m).tolist(), None,
+             rng.integers(-9, 10, size=m).tolist()][yk]
         xk = int(rng.integers(0, 3))
         xarg = [nodes, nodes.tolist(), nodes][xk]
         qarg = ql if rng.random() < 0.7 else ql.tolist()
@@ -768,8 +821,11 @@ def drive_interp(ctx, eqsig, rng, n_cases):
             _call(ctx, 'interp_left.y=None->node-index', lambda: dict(wl(), y=None, y_container='NoneType'),
                   eqsig.interp_left, qarg, xarg)
         s = ql[int(rng.integers(len(ql)))]
-        s = [float(s), np.float64(s)][int(rng.integers(2))]
-        _call(ctx, 'interp_left.scalar-query', lambda: dict(wl(), x0=float(s), x0_container='float'),
+        if all_int:
+            s = [int(s), np.int64(s), float(s)][int(rng.integers(3))]
+        else:
+            s = [float(s), np.float64(s)][int(rng.integers(2))]
+        _call(ctx, 'interp_left.scalar-query', lambda: dict(wl(), x0=s, x0_container=_cont(s)),
               eqsig.interp_left, s, xarg, y)
         if c % 25 == 0 and m > 1:
             # information only: a query below the first node is rejected
@@ -847,9 +903,16 @@ def drive_stepfit(ctx, eqsig, rng, n_cases):
                 x = x * 10.0 ** rng.uniform(-6, 6)
             vals = np.array(x, dtype=float)
             kind = 'float64'
-            if rng.random() < 0.2:
+            v = rng.random()
+            if v < 0.2:
                 vals = vals.tolist()
                 kind = 'list-float'
+            elif v < 0.3:
+                vals = tuple(vals.tolist())
+                kind = 'tuple-float'
+            elif v < 0.45:
+                vals = vals.astype(np.float32)
+                kind = 'float32'
         arr = np.asarray(vals)
         nontriv = len(set(arr.tolist())) > 1
         ctx.case(core.digest('stepfit', arr), nontrivial=nontriv, cls='stepfit-%s-%s' % (cls, kind),
@@ -891,6 +954,38 @@ def gen_period(rng, sc):
     return float(rng.choice([0.05, 0.2, 0.5, 0.75, 1.0, 2.0, 3.0, 4.0, 10.0]))
 
 
+INT_PERIODS = [0, 1, 2, 3, 4, 5, 6, 10]
+
+
+def gen_period_container(rng, sc):
+    """A container of 1..8 periods in the forms c_h_factor accepts: float / integer arrays, lists, tuples, mixed."""
+    n = int(rng.integers(1, 9))
+    k = int(rng.integers(0, 10))
+    fl = [gen_period(rng, sc) for _ in range(n)]
+    it = [int(v) for v in rng.choice(INT_PERIODS, size=n, p=[.06, .22, .2, .2, .1, .1, .06, .06])]
+    if k == 0:
+        return np.array(fl, dtype=float), 'f64-array'
+    if k == 1:
+        return fl, 'float-list'
+    if k == 2:
+        return tuple(fl), 'float-tuple'
+    if k == 3:
+        return it, 'int-list'
+    if k == 4:
+        return tuple(it), 'int-tuple'
+    if k == 5:
+        a = int(rng.integers(0, 3))
+        return np.arange(a, a + n), 'arange'
+    if k == 6:
+        dt = [np.int32, np.int64, np.uint8, np.int16][int(rng.integers(4))]
+        return np.array(it, dtype=dt), 'int-array-' + np.dtype(dt).name
+    if k == 7:
+        return [it[i] if rng.random() < 0.5 else fl[i] for i in range(n)], 'mixed-list'
+    if k == 8:
+        return [np.int64(v) for v in it], 'numpy-int-list'
+    return [float(v) for v in it], 'integer-valued-float-list'
+
+
 def gen_factors(rng):
     """Z, R, N in their NZS 1170.5 ranges."""
     return float(rng.uniform(0.13, 0.6)), float(rng.uniform(0.25, 1.8)), float(rng.uniform(1.0, 1.72))
@@ -911,9 +1006,11 @@ def drive_spectra_random(ctx, eqsig, rng, n_cases):
               {'fn': 'c_h_factor', 'period': T, 'period_container': 'float', 'site_class': sc}, ds.c_h_factor, targ, sc)
         _call(ctx, 'sd_nzs==c_h*T^2*Z*N*R', {'fn': 'sd_nzs', 'period': T, 'site_class': sc, 'z': z, 'r': r, 'n': n},
               ds.sd_nzs, targ, sc, z, r, n)
-        if c % 4 == 0:
-            k = int(rng.integers(1, 9))
-            rel_array_scalar(ctx, eqsig, [gen_period(rng, sc) for _ in range(k)], sc, as_list=rng.random() < 0.3)
+        if c % 2 == 0:
+            arg, form = gen_period_container(rng, sc)
+            ctx.case(core.digest('period-container', sc, form, np.asarray(arg)), nontrivial=True,
+                     cls='spectra-container-' + form)
+            rel_array_scalar(ctx, eqsig, arg, sc)
         # effective period: inside (0, 3], at the corner (two-sided), above the corner (must be rejected)
         Te = float(rng.uniform(0, 3)) if rng.random() < 0.8 else float(rng.choice([3.0 * (1 - 1e-9), 1.5, 1e-6, 0.56, 2.999]))
         if Te > 0:
@@ -985,7 +1082,7 @@ def _as_container(v, name):
     if name == 'list':
         return np.asarray(v).tolist() if isinstance(v, np.ndarray) else list(v)
     if name == 'tuple':
-        return tuple(np.asarray(v).tolist())
+        return tuple(v.tolist()) if isinstance(v, np.ndarray) else tuple(v)
     if name == 'ndarray':
         return np.asarray(v)
     return v
@@ -1007,7 +1104,8 @@ def replay(w):
         _call(ctx, clause, w, eqsig.interp2d, np.asarray(w['x']), np.asarray(w['xf']), np.asarray(w['f']))
     elif fn == 'interp_left':
         x0 = w['x0']
-        x0 = float(x0) if w.get('x0_container') in ('float', 'float64', 'int') else _as_container(x0, w.get('x0_container'))
+        xc = w.get('x0_container')
+        x0 = float(x0) if xc in ('float', 'float64') else (int(x0) if xc in ('int', 'int64', 'int32') else _as_container(x0, xc))
         y = w.get('y')
         y = None if y is None else _as_container(y, w.get('y_container'))
         _call(ctx, clause, w, eqsig.interp_left, x0, _as_container(w['x'], w.get('x_container')), y)
@@ -1025,8 +1123,6 @@ def replay(w):
     elif fn == 'c_h_factor':
         p = w['period']
         p = float(p) if w.get('period_container') in ('float', 'float64') else _as_container(p, w.get('period_container'))
-        if isinstance(p, list):
-            p = [float(t) for t in p]
         _call(ctx, clause, w, ds.c_h_factor, p, w['site_class'])
     elif fn == 'sd_nzs':
         _call(ctx, clause, w, ds.sd_nzs, float(w['period']), w['site_class'], w['z'], w['r'], w['n'])
@@ -1035,7 +1131,7 @@ def replay(w):
     elif fn == 'continuity':
         rel_continuity(ctx, eqsig, w['which'], w['site_class'], float(w['a']), float(w['b']), w.get('clause', 'continuity'))
     elif fn == 'c_h_array_scalar':
-        rel_array_scalar(ctx, eqsig, [float(t) for t in np.asarray(w['periods']).tolist()], w['site_class'], w['as_list'])
+        rel_array_scalar(ctx, eqsig, _as_container(w['periods'], w.get('container')), w['site_class'])
     elif fn == 't_eff_roundtrip':
         rel_t_eff_roundtrip(ctx, eqsig, float(w['T']), w['site_class'], w['z'], w['r'], w['n'])
     elif fn == 't_eff_above':
